@@ -112,8 +112,16 @@ func TestVerifC02(t *testing.T) {
 		r.Count("shapes", 1)
 		r.Count("crash_points", len(pts))
 		for _, pt := range pts {
-			for _, delivered := range []bool{false, true} {
-				runCrash(r, tr, sh, pt, delivered, primary)
+			// async-commit recovery asks several regions in parallel: which answer is processed first is a race,
+			// so crash points inside the prewrite phase of async shapes are taken several times
+			reps := 1
+			if sh.Async && pt.Cmd == tikvrpc.CmdPrewrite {
+				reps = vrep.Pick(3, 8)
+			}
+			for rep := 0; rep < reps; rep++ {
+				for _, delivered := range []bool{false, true} {
+					runCrash(r, tr, sh, pt, delivered, primary)
+				}
 			}
 		}
 		r.Flush()
